@@ -408,26 +408,62 @@ def part_log():
             f'def defaultLogLine (msg tp ctx : String) : String := {line}\n')
 
 
+SPANA = 'src/deep/processor/context/span_action.py'
+
+
+def part_overrides():
+    """every action context class that overrides `can_trigger` (enumerated from the sources), each translated"""
+    import os
+    from pylean import REPO
+    ctxdir = 'src/deep/processor/context'
+    found = []
+    for fn in sorted(os.listdir(os.path.join(REPO, ctxdir))):
+        if not fn.endswith('.py'):
+            continue
+        tree = load(ctxdir + '/' + fn)
+        for n in tree.body:
+            if isinstance(n, ast.ClassDef) and n.name != 'ActionContext':
+                for m in n.body:
+                    if isinstance(m, ast.FunctionDef) and m.name in ('can_trigger', 'has_triggered', 'process', '__exit__',
+                                                                     '__enter__'):
+                        bases = [ast.unparse(b) for b in n.bases]
+                        if any('ActionContext' in b or 'Context' in b for b in bases) and 'Action' in n.name:
+                            found.append(f'{n.name}.{m.name}')
+    known = {'MetricActionContext.can_trigger', 'SpanActionContext.can_trigger'}
+    extra = [f for f in found if f not in known]
+    if extra:
+        raise Untranslatable('action context overrides that are not modelled: %s' % extra)
+
+    def ret(e, node):
+        if isinstance(node, ast.Constant):
+            return f'({e}, 0)'
+        return e
+    out = ['/-- the action context classes that override the gate (`can_trigger` / `process` / `__exit__`) of\n'
+           '    `ActionContext`, enumerated from src/deep/processor/context -/\n'
+           'def gateOverrides : List String := [' + ', '.join(lean_str(f) for f in sorted(found)) + ']\n']
+    mt = load(META)
+    tr = ExprTranslator(calls={'self.__has_metric_processor': lambda a: 'hasProcessor',
+                               'super().can_trigger': lambda a: '(base ())'}, ret=ret)
+    out.append('/-- `MetricActionContext.can_trigger`; `base` is `ActionContext.can_trigger` (result, oracle calls) -/\n' +
+               tr.function(find_def(mt, 'MetricActionContext.can_trigger'),
+                           'def metricCanTrigger (hasProcessor : Bool) (base : Unit → Bool × Nat) : Bool × Nat'))
+    if not same_shape(find_def(mt, 'MetricActionContext.__has_metric_processor'),
+                      'return self.trigger_context.config.has_metric_processor'):
+        raise Untranslatable('__has_metric_processor changed shape')
+    tr = ExprTranslator(subst={'self.trigger_context.config.has_span_processor': 'hasProcessor'},
+                        calls={'super().can_trigger': lambda a: '(base ())'}, ret=ret)
+    out.append('/-- `SpanActionContext.can_trigger` -/\n' +
+               tr.function(find_def(load(SPANA), 'SpanActionContext.can_trigger'),
+                           'def spanCanTrigger (hasProcessor : Bool) (base : Unit → Bool × Nat) : Bool × Nat'))
+    return '\n'.join(out)
+
+
 def part_metric():
     tree = load(META)
     out = []
     ct = find_def(tree, 'MetricActionContext._convert_type')
     out.append('/-- `MetricActionContext._convert_type` -/\n' +
                ExprTranslator().function(ct, f'def convertType ({_params(ct)[0]} : String) : String'))
-    # can_trigger
-    cf = find_def(tree, 'MetricActionContext.can_trigger')
-
-    def ret(e, node):
-        if isinstance(node, ast.Constant):
-            return f'({e}, 0)'
-        return e
-    tr = ExprTranslator(calls={'self.__has_metric_processor': lambda a: 'hasProcessor',
-                               'super().can_trigger': lambda a: '(base ())'}, ret=ret)
-    out.append('/-- `MetricActionContext.can_trigger`; `base` is `ActionContext.can_trigger` (result, oracle calls) -/\n' +
-               tr.function(cf, 'def metricCanTrigger (hasProcessor : Bool) (base : Unit → Bool × Nat) : Bool × Nat'))
-    hp = find_def(tree, 'MetricActionContext.__has_metric_processor')
-    if not same_shape(hp, 'return self.trigger_context.config.has_metric_processor'):
-        raise Untranslatable('__has_metric_processor changed shape')
     # _process_action
     pa = find_def(tree, 'MetricActionContext._process_action')
     body = [s for s in pa.body if not (isinstance(s, ast.Expr) and isinstance(s.value, ast.Constant))]
@@ -576,7 +612,7 @@ def generate():
              '    `text` = `str(result)`, `val` = the value when it is of a kind `float()` accepts. -/\n'
              'structure Outcome where\n  failed : Bool\n  isExc : Bool\n  ty : String\n  text : String\n  val : PyVal\n'
              'deriving DecidableEq, Repr\n',
-             part_str2bool(), part_can_trigger(), part_evaluate(), part_eval_sites(),
+             part_str2bool(), part_can_trigger(), part_evaluate(), part_eval_sites(), part_overrides(),
              _optional(part_log, 'log action facts (C16)', 'logExtractionFailed'),
              _optional(part_metric, 'metric action facts (C17)', 'metricExtractionFailed'),
              'end Extracted.Expr\n']
